@@ -1411,6 +1411,10 @@ class GeoboxTiles:
             return a1, a2
 
         NY, NX = self._gbox.shape.yx
+        if bbox.right < 0 or bbox.left > NX or bbox.top < 0 or bbox.bottom > NY:
+            # entirely outside of the raster: no tiles rather than the nearest edge tile
+            return range(0), range(0)
+
         x1, x2 = _clamp(bbox.range_x, NX)
         y1, y2 = _clamp(bbox.range_y, NY)
 
